@@ -10,6 +10,17 @@ def targs(f):
     return [c['type']['qualType'] for c in kids(f) if c.get('kind') == 'TemplateArgument' and 'type' in c]
 
 
+def check_split_args_quotes(ctx, u, R):
+    """split_args closes a quoted section only on the quote character that opened it"""
+    sa_ = u.func('phosg::split_args')[0]
+    cq = next((v for v in walk(body_of(sa_)) if v.get('kind') == 'VarDecl' and v.get('name') and 'quote' in v.get('name')), None)
+    okq = cq is not None and int_type_info(dtype(cq)) is not None and int_type_info(dtype(cq))[0] == 8
+    if okq:
+        closes = [x for x in walk(body_of(sa_)) if x.get('kind') == 'BinaryOperator' and x.get('opcode') == '=' and (ref_decl(x['inner'][0]) or {}).get('id') == cq['id'] and int_value(x['inner'][1]) == 0]
+        okq = len(closes) == 1 and any(nf(n_) in ('(%s == s[z])' % cq['name'], '(s[z] == %s)' % cq['name']) and p_ for n_, p_ in atoms(path_facts(closes[0])))
+    ctx.check(okq, R, 'split_args|quote-kind-remembered', cq or sa_, 'a quoted section closes only on the same quote character that opened it', 'split_args does not remember which quote character opened the section: the other quote character closes it')
+
+
 def run(ctx):
     ctx.rule('C08-R1', 'join: the delimiter is emitted by item position (first-flag / index), never by a predicate over the accumulated output; every item is appended', 6)
     ctx.rule('C08-R2', 'split: loop admits token_start == size() (trailing empty piece), max_splits stops the search not the emission, tail pushed then break; string and wstring versions identical; split_context pushes the tail', 8)
@@ -250,11 +261,5 @@ def run(ctx):
             oke = set_ok and clr_ok and close_ok
             why += '; set under (!escaped, in quotes, backslash)=%s, cleared under escaped=%s, closing bracket only when not escaped=%s' % (set_ok, clr_ok, close_ok)
     ctx.check(oke, R, 'split_context|escape-state', esc or sc, why, 'escape tracking in split_context is not the stateful scheme: ' + why)
-    sa_ = u.func('phosg::split_args')[0]
-    cq = next((v for v in walk(body_of(sa_)) if v.get('kind') == 'VarDecl' and v.get('name') and 'quote' in v.get('name')), None)
-    okq = cq is not None and int_type_info(dtype(cq)) is not None and int_type_info(dtype(cq))[0] == 8
-    if okq:
-        closes = [x for x in walk(body_of(sa_)) if x.get('kind') == 'BinaryOperator' and x.get('opcode') == '=' and (ref_decl(x['inner'][0]) or {}).get('id') == cq['id'] and int_value(x['inner'][1]) == 0]
-        okq = len(closes) == 1 and any(nf(n_) in ('(%s == s[z])' % cq['name'], '(s[z] == %s)' % cq['name']) and p_ for n_, p_ in atoms(path_facts(closes[0])))
-    ctx.check(okq, R, 'split_args|quote-kind-remembered', cq or sa_, 'a quoted section closes only on the same quote character that opened it', 'split_args does not remember which quote character opened the section: the other quote character closes it')
+    check_split_args_quotes(ctx, u, R)
     ctx.note('Not decided: the algebraic laws as such (piece count, no delimiter inside pieces, trim/replace/case equality with reference definitions).')
